@@ -45,6 +45,15 @@ type Frame struct {
 	args     []Value
 	fc       *FuncContract
 	depth    int
+	parent   *Frame // the frame of the caller, for callees executed from their bodies (inlined)
+}
+
+// root is the frame of the function under contract that (transitively) inlined this frame.
+func (f *Frame) root() *Frame {
+	for f.parent != nil {
+		f = f.parent
+	}
+	return f
 }
 
 type deferred struct {
@@ -97,6 +106,7 @@ type Outcome struct {
 }
 
 type Exec struct {
+	callerFr *Frame // set by callFn around runFunc: the frame that inlines the callee
 	snapRefs []*Term // backing arrays that are read-only snapshots of arrays nested in structs
 	snapInit bool
 	c         *Ctx
@@ -472,7 +482,7 @@ func (x *Exec) runFunc(st *State, fn *ssa.Function, args []Value, binds []Value,
 	if len(fn.Blocks) == 0 {
 		unsup("function %s has no body", fn)
 	}
-	fr := &Frame{fn: fn, env: map[ssa.Value]Value{}, names: map[string]ssa.Value{}, loopSnap: map[*ssa.BasicBlock]*loopSnap{}, loopIter: map[*ssa.BasicBlock]int{}, chain: chain, depth: depth, fc: fc}
+	fr := &Frame{parent: x.callerFr, fn: fn, env: map[ssa.Value]Value{}, names: map[string]ssa.Value{}, loopSnap: map[*ssa.BasicBlock]*loopSnap{}, loopIter: map[*ssa.BasicBlock]int{}, chain: chain, depth: depth, fc: fc}
 	for i, p := range fn.Params {
 		fr.env[p] = args[i]
 		fr.names[p.Name()] = p
